@@ -221,7 +221,9 @@ def dispatch(prog, eff):
     if res_i is None:
         raise AnalysisBroken("cbor_stream_decode: result is not returned through an sret slot")
     import ownership as _O
-    X = P.Executor(prog, eff, inline={"claim_bytes"} | _O.static_callees(prog, eff, "cbor_stream_decode"))
+    import decoder_rules as _DR
+    CLAIM = _DR.claim_helper(prog)
+    X = P.Executor(prog, eff, inline={CLAIM} | _O.static_callees(prog, eff, "cbor_stream_decode"))
     ps = X.run("cbor_stream_decode")
     fields = callback_fields(prog)
     # field offsets of struct cbor_decoder_result
@@ -250,9 +252,9 @@ def dispatch(prog, eff):
         reads = []
         open_claim = None
         for e in pa.events:
-            if e.kind == "enter" and e.callee == "claim_bytes":
+            if e.kind == "enter" and e.callee == CLAIM:
                 open_claim = e
-            elif e.kind == "leave" and e.callee == "claim_bytes":
+            elif e.kind == "leave" and e.callee == CLAIM:
                 ok = e.res == ("c", 1)
                 amount = e.args[0]
                 claims.append(dict(amount=amount, ok=ok, before=claimed, provided=e.args[1], ev=e, nfacts=e.nfacts))
